@@ -143,11 +143,23 @@ pub fn run(input: &str, out: &mut dyn Write, ar_empty: bool) -> (u64, u64) {
         ]);
         let o = J::O(vec![("i", ji(n)), ("obs", J::A(obs)), ("unwound", J::B(r.is_err())),
                           ("free", J::A(free.iter().map(|b| J::B(*b)).collect())), ("clone_ok", J::B(clone_ok)), ("final", final_vals)]);
-        writeln!(out, "{}", o.to_line()).unwrap();
-        n += 1;
         drop(cx);
         drop(w);
+        // everything the script created (including clones made by refused or successful clone()
+        // calls) must have been dropped together with the worlds
+        let leaked = crate::reg::live_ids().len();
+        let zl = crate::reg::with(|r| r.z_live);
+        let anomalies = crate::reg::take_anomalies().len();
+        let mut o = o;
+        if let J::O(ref mut v) = o {
+            v.push(("leaked", ji(leaked)));
+            v.push(("zleaked", ji(zl)));
+            v.push(("anomalies", ji(anomalies)));
+        }
+        writeln!(out, "{}", o.to_line()).unwrap();
+        n += 1;
         crate::reg::forget_all();
+        crate::reg::with(|r| r.z_live = 0);
     }
     (n, panics)
 }
